@@ -28,9 +28,10 @@ ERRORS_FOR = {
 
 
 class FileProxy:
-    def __init__(self, ip, real, path, mode):
+    def __init__(self, ip, real, path, mode, raw=False):
         self._ip, self._f, self._path, self.mode = ip, real, path, mode
         self.name = path
+        self._raw = raw        # the caller asked for an unbuffered file (buffering=0)
 
     # -- counted operations --
     def write(self, b):
@@ -41,6 +42,14 @@ class FileProxy:
         if act == "torn":
             os.write(self._f.fileno(), b[:len(b) // 2])
             self._ip._crash_now()
+        if act == "short":
+            # POSIX short write: only the first half reaches the file.  A buffered file
+            # object (the default) retries the remainder and gets the error; a raw one
+            # (buffering=0) just reports the number of bytes written.
+            n = os.write(self._f.fileno(), b[:len(b) // 2])
+            if self._raw:
+                return n
+            raise OSError(_errno.ENOSPC, os.strerror(_errno.ENOSPC), os.fspath(self._path))
         return self._f.write(b)
 
     def read(self, n=-1):
@@ -148,6 +157,12 @@ class Interposer:
                 if kind == "write":
                     return "torn"
                 self._crash_now()
+            if mode == "short":
+                self.fired = True
+                if kind == "write":
+                    return "short"
+                code = _errno.ENOSPC
+                raise OSError(code, os.strerror(code), os.fspath(path) if path else None)
         return "do"
 
     # ---------------------------------------------------------------
@@ -170,7 +185,8 @@ class Interposer:
             if "b" not in mode:
                 return real_open(file, mode, *a, **kw)
             raw = real_open(file, mode, buffering=0)
-            return FileProxy(ip, raw, file, mode)
+            buffering = a[0] if a else kw.get("buffering", -1)
+            return FileProxy(ip, raw, file, mode, raw=(buffering == 0))
 
         def my_stat(path, *a, **kw):
             if isinstance(path, int) or not ip._mine(path):
